@@ -25,6 +25,7 @@ RULE = (
     "through the expected adapter class. Garbage (random bytes, codec signature + garbage, 'Obj' + garbage, text "
     "starting with '<') must raise and yield no record. Non-trivial = matrix cell with a compressed codec or a "
     "non-path source and >=1 record; distinct by (case digest, access way)."
+    " Also: several writers of one codec open at once and written to in turn."
 )
 ASSUMPTIONS = [
     "'a standard decompressor' = the Python bindings gzip, bz2, lz4.frame, zstandard present in the sandbox",
